@@ -62,7 +62,7 @@ var repriceTable = map[string]repriceClass{
 }
 
 func init() {
-	register(&Rule{ID: "C12.reprice", Props: []string{"C12", "C05"}, Floor: 8,
+	register(&Rule{ID: "C12.reprice", Props: []string{"C12", "C05", "C08"}, Floor: 8,
 		Doc: "every write that re-prices positions is neutral, lowering or on an empty asset; value-raising writes inflate accrued entitlements",
 		Run: func(e *Engine, r *RuleRun) {
 			seen := map[string]bool{}
